@@ -1,4 +1,4 @@
-# C03 defect 2: the log2 term (and the MinGenSet input) of get_lowerbound_k counts the flow values of ignored edges.
+# C03 regression snippet (defect fixed in /repo) - former defect 2: the log2 term (and the MinGenSet input) of get_lowerbound_k counts the flow values of ignored edges.
 import sys; sys.path.insert(0, __import__("os").environ.get("FLOWPATHS_REPO", "/repo"))
 import networkx as nx, flowpaths as fp
 G = nx.DiGraph()
@@ -8,4 +8,4 @@ ign = [("s", "t"), ("s", "m"), ("m", "t")]
 m = fp.MinFlowDecomp(G, flow_attr="flow", weight_type=int, elements_to_ignore=ign)
 print("lower bound:", m.get_lowerbound_k(), "(width 1, 4 distinct values incl. ignored ones -> ceil(log2 4) = 2; minimum is 1: s-a-t weight 5)")
 print("solve():", m.solve(), m.get_solution())
-assert m.get_lowerbound_k() == 2 and len(m.get_solution()["paths"]) == 2
+assert m.get_lowerbound_k() == 1 and len(m.get_solution()["paths"]) == 1   # regression: fixed by 01f9777
